@@ -35,7 +35,7 @@ def gen_skk(rng):
 def gen_note(rng):
     """A well-formed notes line together with the dictionary lines the converter must emit (reference semantics)."""
     head = rnd(rng, KANA[1:60], 1, 3)
-    kind = rng.below(10)
+    kind = rng.below(11)
     stem = rnd(rng, KANJI, 1, 2)
     exp = []
     okl = ""
@@ -43,7 +43,13 @@ def gen_note(rng):
     # readings that end in the very kana the dictionary form adds (むだ + だ, かわい + い, かく + く) are the coincidences a
     # converter that strips "the ending" by value instead of by position gets wrong
     echo = rng.below(3) == 0
-    if kind == 9:      # base godan verb with NO okuri specification at all (neither (-xx) nor [..])
+    if kind == 10:     # godan verb whose FIXED okuri carries kana of the stem before the dictionary ending: 揺 + (-がす) = 揺が + す
+        row = rng.pick(list(GODAN))
+        extra, letter = rng.pick([("が", "g"), ("か", "k"), ("ら", "r"), ("なさ", "n"), ("ま", "m"), ("た", "t"), ("ざ", "z")])
+        okl = letter
+        body = "%s;∥<base>%s行五段(-%s%s)" % (stem, row, extra, GODAN_U[row])
+        exp = [(head + extra, stem + extra, "%s行五段" % row)]
+    elif kind == 9:      # base godan verb with NO okuri specification at all (neither (-xx) nor [..])
         row = rng.pick(list(GODAN))
         okl = GODAN[row]
         if echo:
